@@ -1,7 +1,9 @@
 mod c15;
+mod c16;
 
 fn main() {
     vf_kit::dispatch! {
         "c15" => c15::C15,
+        "c16" => c16::C16,
     }
 }
